@@ -21,7 +21,8 @@ TOK = ['1', '12', '31', '99', '2003', '0', '123456', '20030925', '200309251036',
        '(', ')', 'x', '٣', '\xb2', '\x00', 'inf', 'nan', 'e5', '9' * 30, '0' * 9, '10', '36', 'Z0', "'", 'ad',
        'GMT+3', 'EST-5', '10:36']
 OPTS = [{}, {'fuzzy': True}, {'fuzzy_with_tokens': True}, {'dayfirst': True, 'yearfirst': True}, {'ignoretz': True},
-        {'tzinfos': {'EST': -18000, 'x': 3600, 'UTC': 0, 'GMT': 0}}]
+        {'tzinfos': {'EST': -18000, 'x': 3600, 'UTC': 0, 'GMT': 0}},
+        {'fuzzy_with_tokens': True, 'ignoretz': True}]
 DEFAULT = D.datetime(2003, 9, 25, 1, 2, 3, 4)
 CPU_CAP = 2.0
 
@@ -247,6 +248,31 @@ def eval_long(i):
     return Res(trans=1, extra={'long_input_cpu_ms': int(1000 * (time.process_time() - t0))})
 
 
+def eval_infoswitch(case):
+    """parse(text, parserinfo=...) with parserinfo objects of different flags, one call after the other: each call
+    is read under its own object's flags (10/09/2003 is 9 October, or 10 September under dayfirst)"""
+    from dateutil import parser
+    warnings.simplefilter('ignore')
+    order = case
+    flags = {'us': {}, 'eu': {'dayfirst': True}, 'yf': {'yearfirst': True}, 'eu-yf': {'dayfirst': True, 'yearfirst': True}}
+    texts = {'10/09/2003': {'us': (2003, 10, 9), 'eu': (2003, 9, 10), 'yf': (2003, 10, 9), 'eu-yf': (2003, 9, 10)},
+             '03-09-25': {'us': (2025, 3, 9), 'eu': (2025, 9, 3), 'yf': (2003, 9, 25), 'eu-yf': (2003, 9, 25)}}
+    viols = []
+    n = 0
+    for text, exp in texts.items():
+        for name in order:
+            n += 1
+            try:
+                got = parser.parse(text, parserinfo=parser.parserinfo(**flags[name]), default=DEFAULT)
+                g = (got.year, got.month, got.day)
+            except Exception as e:
+                g = 'EXC:' + type(e).__name__
+            if g != exp[name]:
+                viols.append({'kind': 'state-carried-over', 'text': text, 'parserinfo_flags': flags[name], 'call_order': list(order),
+                              'got': g, 'expected': exp[name]})
+    return Res(trans=n, viols=viols[:3])
+
+
 TZ_SWITCHES = [('IST-5:30', 'IST-2', 'IST', 7200), ('CST6', 'CST-8', 'CST', 28800), ('EST5EDT,M3.2.0,M11.1.0', 'EST-10EDT,M3.2.0,M11.1.0', 'EST', 36000),
                ('AAA3', 'AAA-3', 'AAA', 10800), ('GMT0', 'GMT0BST,M3.5.0/1,M10.5.0', 'GMT', 0)]
 
@@ -288,6 +314,8 @@ def replay(part, case):
         return eval_order(case).viols
     if part == 'input-types':
         return eval_types(case).viols
+    if part == 'parserinfo-switch':
+        return eval_infoswitch(tuple(case)).viols
     if part == 'long-inputs':
         return eval_long(case).viols
     if part == 'process-zone-switch':
@@ -310,6 +338,7 @@ def run(ctx):
     ctx.explore('call-order-global', [0], 'eval_order', serial=True)
     ctx.explore('process-zone-switch', TZ_SWITCHES, 'eval_tzswitch', serial=True)
     ctx.explore('long-inputs', list(range(len(LONG_TEXTS))), 'eval_long', chunk=1)
+    ctx.explore('parserinfo-switch', [p for p in itertools.permutations(('us', 'eu', 'yf', 'eu-yf'), 3)], 'eval_infoswitch', serial=True)
     ctx.coverage_extra.update({
         'bounds': {'token_alphabet': len(TOK), 'depth': depth, 'option_sets': len(OPTS), 'leak_set': len(leak_set()),
                    'cpu_cap_s': CPU_CAP},
